@@ -168,7 +168,8 @@ def _param_names(params):
     if not params or not params.strip():
         return []
     t = symtable.symtable("def __p(%s): pass" % params, "<params>", "exec")
-    return [s.get_name() for s in t.get_children()[0].get_symbols() if s.is_parameter()]
+    fn = [c for c in t.get_children() if c.get_name() == "__p"][0]
+    return [s.get_name() for s in fn.get_symbols() if s.is_parameter()]
 
 
 def _bound_by_code(src):
@@ -317,7 +318,7 @@ class _FileGen:
         e.w("    __d = {}")
         for n in over:
             e.w("    try: __d[%r] = %s" % (n, n))
-            e.w("    except NameError: pass")
+            e.w("    except __NameError: pass")
         e.w("    return context.overlay(__d) if __d else context")
         self.callable_body("__body", f["body"], is_body=True)
         e.ind -= 1
@@ -359,7 +360,7 @@ def _free_names(src, generated, module_names):
                 if not n.startswith("__") and n not in _FIXED and n not in module_names and n not in acc:
                     acc.append(n)
         for c in t.get_children():
-            if c.get_name() not in generated:
+            if c.get_name() not in generated and c.get_name() != "__view":
                 collect(c, acc)
 
     def walk(t):
@@ -396,7 +397,7 @@ def run(prog, ctx, strict=False):
                     rt.info[uri]["imports"][n] = nsuri
         for uri, f in prog["files"].items():
             src = translate_file(uri, f)
-            g = {"__rt": rt, "__str": str, "UNDEFINED": rt.UNDEFINED, "STOP_RENDERING": "", "__name__": "ref_" + uri}
+            g = {"__rt": rt, "__str": str, "__NameError": NameError, "UNDEFINED": rt.UNDEFINED, "STOP_RENDERING": "", "__name__": "ref_" + uri}
             exec(compile(src, "<ref:%s>" % uri, "exec"), g)
             rt.mods[uri] = g
         main = prog["main"]
